@@ -4,11 +4,14 @@ import (
 	"fmt"
 	"os"
 	"reflect"
+	"strings"
+	"sync"
 	"time"
 
 	"verif/internal/adapt"
 	"verif/internal/core"
 	"verif/internal/refmodel"
+	"verif/internal/registry"
 
 	"github.com/go-i2p/common/base32"
 	"github.com/go-i2p/common/base64"
@@ -69,6 +72,16 @@ func c04Methods(r *core.Run, worker int, p adapt.Parser, in *Input, v any) {
 			r.Evaluations.Add(int64(c2))
 		}
 	})
+	// exported package-level functions that take a value of this type (decoders and accessors that are
+	// not methods): called with the accepted value and menu values for their other parameters
+	if fs := c04FuncsFor(v); len(fs) > 0 {
+		n := adapt.CallFuncsWith(v, fs, func(o adapt.CallOutcome) {
+			if o.Panicked {
+				r.Violate("C04|function-panic|"+o.Method+"|"+o.Site, fmt.Sprintf("%s(%s) panics on a value %s returned without error (%s %s; %s): %s", o.Method, o.Args, p.Name, in.Class, in.Detail, in.Base, o.Msg), in.Case(p.Name))
+			}
+		})
+		r.Evaluations.Add(int64(n))
+	}
 	r.End(worker)
 	r.Evaluations.Add(int64(called))
 	r.Traces.Add(1)
@@ -121,6 +134,11 @@ func runC04(r *core.Run) {
 				if pan {
 					r.Violate("C04|method-panic|serialise|"+site, fmt.Sprintf("serialising the value %s returned panics: %s", p.Name, msg), in.Case(p.Name))
 				}
+			}
+			// the byte-walk reaches degenerate but accepted encodings (declared lengths 0..3, empty
+			// payloads) that no generator produces: every method and accessor function on them too
+			if ok && res.OK && res.Val != nil {
+				c04Methods(r, worker, p, in, res.Val)
 			}
 		}
 	})
@@ -377,4 +395,44 @@ func c04StepBound(r *core.Run) {
 	r.Note("step_bound_worst_ratio_steps_per_byte", maxRatio)
 	r.Note("step_bound_worst_case", worst)
 	r.Note("step_bound", fmt.Sprintf("steps <= %d + %d*len(input)", stepA, stepB))
+}
+
+var (
+	c04FuncIndexOnce sync.Once
+	c04FuncIndex     map[reflect.Type][]adapt.FuncInfo
+	c04FuncUnsup     int
+)
+
+// c04FuncsFor returns the exported package-level functions (from the registry generated at this
+// run) that have a parameter of v's type. Constructors that sign or generate keys are left to the
+// properties that drive them with meaningful arguments (C06, C14): they are not decoders/accessors.
+func c04FuncsFor(v any) []adapt.FuncInfo {
+	c04FuncIndexOnce.Do(func() {
+		var all []adapt.FuncInfo
+		for _, f := range registry.Funcs {
+			fv := reflect.ValueOf(f.Fn)
+			if fv.Kind() != reflect.Func {
+				continue
+			}
+			// the property speaks of parsers, decoders and accessors; constructors and signing /
+			// encrypting / generating functions (driven with meaningful arguments by C06, C14, C16) are not
+			short := f.Name[strings.IndexByte(f.Name, '.')+1:]
+			constructor := false
+			for _, pre := range []string{"New", "Create", "Generate", "Sign", "Build", "Encrypt", "Must"} {
+				if strings.HasPrefix(short, pre) {
+					constructor = true
+				}
+			}
+			if constructor {
+				continue
+			}
+			all = append(all, adapt.FuncInfo{Name: f.Name, V: fv, T: fv.Type()})
+		}
+		c04FuncIndex, c04FuncUnsup = adapt.FuncsTaking(all)
+	})
+	t := reflect.TypeOf(v)
+	for t != nil && t.Kind() == reflect.Ptr {
+		t = t.Elem()
+	}
+	return c04FuncIndex[t]
 }
